@@ -1,7 +1,7 @@
 // C12 extractor: run the REAL common driver (libacquire-driver-common.so built from the
 // working tree of the repository) and print lean/AcqVerif/Generated/DeviceTable.lean.
 //
-// For every index i in 0..device_count-1 and a few indices beyond it:
+// For every index i in 0..device_count-1 and indices beyond it (up to 2^64-1, incl. those that alias a valid index modulo 2^8, 2^16, 2^32):
 //   describe(i)                                -> status, device_id, kind, name
 //   open(i); describe(i) into the opened device -> status, device_id, kind, name   (what driver.c does)
 //   close                                      -> status
@@ -103,11 +103,24 @@ main(int argc, char** argv)
            "deriving DecidableEq, Repr, Inhabited\n\n");
     printf("/-- `basic_device_count()` -/\ndef deviceCount : Nat := %u\n\n", n);
 
-    unsigned long long probes[16];
+    // indices beyond the table, among them those whose low 8 / 16 / 32 bits are a valid index (an index that is narrowed
+    // before it is range-checked slips through exactly there)
+    unsigned long long probes[64];
     size_t np = 0;
     probes[np++] = n;
     probes[np++] = n + 1ULL;
     probes[np++] = 255;
+    probes[np++] = 256;
+    probes[np++] = 256 + (n ? n - 1ULL : 0);
+    probes[np++] = 65536 + 1ULL;
+    probes[np++] = 1ULL << 31;
+    probes[np++] = (1ULL << 31) + 1;
+    for (unsigned k = 0; k < n && k < 8; ++k)
+        probes[np++] = (1ULL << 32) + k;
+    probes[np++] = (1ULL << 32) + n;
+    probes[np++] = (7ULL << 32) + (n ? n - 1ULL : 0);
+    probes[np++] = 1ULL << 63;
+    probes[np++] = ~0ULL;
 
     printf("def rows : List Row := [\n");
     for (size_t r = 0; r < n + np; ++r) {
